@@ -109,21 +109,27 @@ Definition need {A} (o : option A) (e : err) : result A := match o with Some a =
 (* self.body.data = ma.subtract(self.body.data, mins) *)
 Definition shift_point (mins : list T) (p : point) : point :=
   mkP (zipw (fun (c : T * bool) (m : T) => if snd c then c else (sub O (fst c) m, false)) (pcs p) mins) (pc p).
+(* (a - b) of two masked scalars *)
+Definition osub (a b : option T) : option T :=
+  match a, b with Some x, Some y => Some (sub O x y) | _, _ => None end.
+Definition val (o : option T) : T := match o with Some v => v | None => zero O end.
 Definition focus (D : nat) (b : frames) : result (frames * (Z * Z * Z)) :=
   let pts := all_points b in
-  (* an axis without any observed value gives a masked min: (maxs - mins).tolist() holds None and math.ceil raises;
-     an empty array makes ma.min raise *)
-  do mins <- rmapM (fun d => need (lmin (obs_axis d pts)) Type_) (seq 0 D);
-  do maxs <- rmapM (fun d => need (lmax (obs_axis d pts)) Type_) (seq 0 D);
-  (* if np.count_nonzero(mins) > 0 *)
-  let b' := if existsb (fun m => negb (eqb O m (zero O))) mins then map3 (shift_point mins) b else b in
-  let ext := zipw (sub O) maxs mins in
-  (* PoseHeaderDimensions applied to the unpacked list: width, height, depth=0, *args ; each through math.ceil *)
+  (* mins = ma.min(data, axis=(0, 1, 2)): one entry per axis, masked (None) when the axis has no observed value *)
+  let mins := map (fun d => lmin (obs_axis d pts)) (seq 0 D) in
+  let maxs := map (fun d => lmax (obs_axis d pts)) (seq 0 D) in
+  (* if np.count_nonzero(mins) > 0 -- a masked entry holds the fill value, which counts as non-zero.
+     Subtracting a masked minimum masks that axis, which has no observed value anyway. *)
+  let b' := if existsb (fun m => match m with Some v => negb (eqb O v (zero O)) | None => true end) mins
+            then map3 (shift_point (map val mins)) b else b in
+  let ext := zipw osub maxs mins in
+  (* PoseHeaderDimensions applied to the unpacked list: width, height, depth=0, *args ; each of the three through
+     math.ceil, which raises TypeError on the None a masked entry becomes (an empty array makes ma.min raise before) *)
   match ext with
   | w :: h :: rest =>
-      do wz <- need (ceilZ w) Value;
-      do hz <- need (ceilZ h) Value;
-      do dz <- match rest with [] => Ok 0%Z | dpt :: _ => need (ceilZ dpt) Value end;
+      do wv <- need w Type_; do wz <- need (ceilZ wv) Value;
+      do hv <- need h Type_; do hz <- need (ceilZ hv) Value;
+      do dz <- match rest with [] => Ok 0%Z | dpt :: _ => do dv <- need dpt Type_; need (ceilZ dv) Value end;
       Ok (b', (wz, hz, dz))
   | _ => Err Type_
   end.
@@ -133,7 +139,6 @@ Definition focus (D : nat) (b : frames) : result (frames * (Z * Z * Z)) :=
 Fixpoint split_comps (ns : list nat) (pts : list point) : list (list point) :=
   match ns with [] => [] | n :: r => firstn n pts :: split_comps r (skipn n pts) end.
 Definition is_none {A} (o : option A) : bool := match o with None => true | Some _ => false end.
-Definition val (o : option T) : T := match o with Some v => v | None => zero O end.
 (* ma.stack([ma.min(c, axis=0), ma.max(c, axis=0)]); confidence = 0 where axis 0 of the box is masked, else 1;
    then __init__ *)
 Definition box (D : nat) (cpts : list point) : list point :=
